@@ -216,5 +216,37 @@ def rule_d3(repo):
     return res
 
 
+def rule_d4(repo):
+    """The self-reference guard lets an overloaded constant occur on the right at a *disjoint* type.  The
+    test it relies on must err on the safe side: it may answer 'disjoint' only for a constructor clash
+    (both sides type constructors with different name / arity, or some pair of arguments disjoint)."""
+    res = RuleResult('C11.D4', 'the type-disjointness test behind the self-reference guard answers "disjoint" only for a constructor clash', floor=1)
+    f = repo.opt_func(ITEMS, 'types_disjoint')
+    if f is None:
+        # the guard may compare types in another way; then D1g alone applies
+        res.add('%s :: types_disjoint' % ITEMS, True, 'no separate disjointness helper', '%s:1' % ITEMS, nontrivial=False)
+        return res
+    cfg = cfg_of(f.node)
+    t1, t2 = f.params()[:2]
+
+    def is_con(name):
+        def pred(e, pol):
+            return pol and isinstance(e, ast.Call) and call_attr(e) == 'is_tconst' and isinstance(e.func, ast.Attribute) and is_name(e.func.value, name)
+        return cfg.establishing_edges(pred)
+    e1, e2 = is_con(t1), is_con(t2)
+    bad = []
+    for r in cfg.return_nodes():
+        v = r.ast.value
+        if v is None or (isinstance(v, ast.Constant) and v.value in (False, None)):
+            continue
+        if not (e1 and e2 and cfg.path_avoiding(r, skip_edges=e1) is None and cfg.path_avoiding(r, skip_edges=e2) is None):
+            bad.append('line %d: `return %s`' % (r.lineno, src(v, 50)))
+    res.add('%s :: types_disjoint :: conservative' % ITEMS, not bad,
+            'every possibly-true answer is behind is_tconst() of both types' if not bad else
+            'can answer "disjoint" although one side may be a type variable (%s): a polymorphic instance such as \'a set overlaps '
+            'nat set, so the defined constant may then occur in its own definition' % '; '.join(bad), f.loc)
+    return res
+
+
 def rules(repo):
-    return [rule_d1(repo), rule_d2(repo), rule_d3(repo)]
+    return [rule_d1(repo), rule_d2(repo), rule_d3(repo), rule_d4(repo)]
